@@ -103,7 +103,7 @@ fn create_feature<K: Send + Sync + 'static>(
             solution_estimate_fn: solution_estimate_fn.clone(),
             phantom_data: PhantomData::<K>,
         })
-        .with_state(WorkBalanceState { route_estimate_fn, solution_estimate_fn, phantom_data: PhantomData::<K> })
+        .with_state(WorkBalanceState { route_estimate_fn, phantom_data: PhantomData::<K> })
         .build()
 }
 
@@ -115,12 +115,9 @@ struct WorkBalanceObjective<K: Send + Sync + 'static> {
 
 impl<K: Send + Sync + 'static> FeatureObjective for WorkBalanceObjective<K> {
     fn fitness(&self, solution: &InsertionContext) -> Cost {
-        solution
-            .solution
-            .state
-            .get_value::<K, Float>()
-            .cloned()
-            .unwrap_or_else(|| (self.solution_estimate_fn)(&solution.solution))
+        // NOTE: do not use a value cached in solution state: it can be calculated before the route states,
+        // it is derived from, are updated by other features within the same solution state update
+        (self.solution_estimate_fn)(&solution.solution)
     }
 
     fn estimate(&self, move_ctx: &MoveContext<'_>) -> Cost {
@@ -142,7 +139,6 @@ impl<K: Send + Sync + 'static> FeatureObjective for WorkBalanceObjective<K> {
 
 struct WorkBalanceState<K: Send + Sync + 'static> {
     route_estimate_fn: Arc<dyn Fn(&RouteContext) -> Float + Send + Sync>,
-    solution_estimate_fn: Arc<dyn Fn(&SolutionContext) -> Float + Send + Sync>,
     phantom_data: PhantomData<K>,
 }
 
@@ -158,8 +154,9 @@ impl<K: Send + Sync + 'static> FeatureState for WorkBalanceState<K> {
     }
 
     fn accept_solution_state(&self, solution_ctx: &mut SolutionContext) {
-        let value = (self.solution_estimate_fn)(solution_ctx);
-
-        solution_ctx.state.set_value::<K, _>(value);
+        // NOTE: refresh tour values of changed tours (e.g. jobs can be removed from the tour)
+        solution_ctx.routes.iter_mut().filter(|route_ctx| route_ctx.is_stale()).for_each(|route_ctx| {
+            self.accept_route_state(route_ctx);
+        })
     }
 }
